@@ -1,0 +1,16 @@
+//go:build verif
+
+package priq
+
+// Verification hooks (build tag verif only).  Push and Pop signal the wait channel after they
+// released the mutex; VerifGate, when set, is called at exactly that point ("push" / "pop"), so a
+// harness can hold a call between its two halves.
+
+// VerifGate is the rendez-vous installed by the verification harness.
+var VerifGate func(point string)
+
+func verifGate(point string) {
+	if f := VerifGate; f != nil {
+		f(point)
+	}
+}
